@@ -247,6 +247,53 @@ CHECKS = {
         design='DESIGN.md section 8, C19'),
 }
 
+# Added by the fourth build session: theorems that now exist on top of what the texts above describe (where a text above says
+# "PARTIAL ... L2 only" about one of these items, this addendum is right).
+ADDENDUM = {
+    'C01': " ADDED: the dense and the sparse result forms agree (dense row = scatter-add of the stored (index, datum) pairs, duplicates summed, for every Num instance; "
+           "on non-periodic bases the p indices are the consecutive columns mu-p..mu-1 and everything else is zero).",
+    'C02': " ADDED: Model/EvalForms.v models the calling forms as wholes (tensor grid in C order, tensor=False, scalars; whole-list validation incl. empty lists and unequal lengths) with "
+           "theorems: grid entry at a multi-index = obj_eval at that tuple, pointwise = grid diagonal, singleton lists/scalars give exactly one point, ValueError iff some non-periodic "
+           "direction has an empty list or a parameter outside its domain; tied by L1 on lists of every length (runner commands eval_grid/eval_pointwise).",
+    'C06': " ADDED (end to end on the model's own functions, any pardim): obj_reparam_dir then obj_eval at the mapped parameter = obj_eval of the old object (same tolerance under a clear-of-knots "
+           "hypothesis on that parameter, or tolerance scaled by the slope with no hypothesis; periodic directions included), the domain is exactly the requested interval, reparam back is the "
+           "identity; obj_reverse then obj_eval at a+b-t = obj_eval at t on non-periodic directions for every t that is not within the tolerance of an interior knot of full multiplicity "
+           "(ends and knots of lower multiplicity included), domain/order/periodicity unchanged, reverse is an involution (objects equal); obj_swap then obj_eval with the parameters exchanged = "
+           "obj_eval for any two directions of any pardim, swap is an involution, curves unchanged. Still L1/L2 only: reverse on periodic directions.",
+    'C07': " ADDED (end to end): for the model's obj_split in a non-periodic direction of any-pardim object, for every strictly increasing list of interior split values that keep 2*tol "
+           "distance from each other and the ends: the call succeeds with exactly len+1 pieces, every piece is well formed, non-periodic, of the same order, its domain in that direction is the "
+           "consecutive sub-interval [x_{j-1}, x_j] (tiling from start to end), the other directions are untouched, and obj_eval of piece j equals obj_eval of the original at every parameter tuple "
+           "of its sub-interval (up to 2*tol below an interior piece end, where the piece evaluates the left and the original the right limit); values outside (start,end) are skipped. "
+           "Still L1/L2 only: the periodic branch (roll), subdivide, the unification inside append.",
+    'C08': " ADDED: seam continuity -- for knot functions with exact periodic images and periodic coefficients the wrapped sum and all its derivatives up to the periodic continuity agree from the "
+           "right at start and from the left at end (also for finite knot lists; B-splines and their derivatives are continuous at knots of sufficiently low multiplicity, any multiplicity); "
+           "translation by a period leaves the wrapped sums unchanged; BSplineBasis.make_periodic of an open basis gives a sorted knot list whose ghost knots are the exact periodic images with "
+           "seam multiplicity p-1-continuity, the model's dense rows at start/end agree up to that derivative order; opening at the seam and make_periodic with the same continuity returns the "
+           "same knot list (canonical periodic bases with at least p-1+... interior room: cont <= number of interior knots); roll + truncation of the periodic split branch opens exactly at the seam. "
+           "Still L1/L2 only: control-point round trip (known finding), lower_periodic, the repeated periodic insertion inside split.",
+    'C13': " ADDED: composite primitives from the proved building blocks -- sphere, torus (quartic and sqrt form) and solid torus from revolve nets; cylinder and solid cylinder from extrude nets "
+           "(point = base + v*axis, radial distance r, height in [0,h]); radial disc and radial solid sphere (straight interpolation to the centre: distance u*r, stays in the plane); the 3x3 "
+           "'square' disc net has the four quarter arcs as boundary and lies inside the disc; all composed with the placement by centre and normal (distances, axial and radial coordinates "
+           "preserved).",
+    'C17': " ADDED: Model/Catalogue.v, an abstract catalogue (patches by their 2^d corner vertex ids, nodes keyed by dimension and corner set, lower/higher links as in TopologicalNode), with "
+           "axiom-free theorems for any dimension and any number of patches: add is idempotent and lookup finds every sub-entity, the node set is exactly the set of sub-cubes and is independent "
+           "of insertion order and of every re-orientation of every patch (one node per distinct vertex/edge/face/patch), higher neighbours of an interface are exactly the patches having it as a "
+           "face, boundary = faces of exactly one patch, node counts of nx x ny (x nz) lattices for all sizes. Tied by L1 on lattice complexes (counts, boundary, interface neighbours). Not "
+           "captured by the abstraction: tolerance-based vertex identification, twins, self-adjacent patches (those stay with L2).",
+    'C18': " ADDED: Model/Faces.v transcribes generate_cell_numbers and TopologicalNode.faces for a structured trilinear patch (slices, mkindex incl. the swap for direction 1, flatten order, "
+           "the node swap at the lower boundary); axiom-free theorems for all nx,ny,nz >= 1: cell numbers over any list of patches are a bijection onto 0..ncells-1; face counts; every internal "
+           "face has owner < neighbour which are the two adjacent cells, every adjacent pair has exactly one face; every cell is bounded by exactly six faces; the four nodes of a face are the "
+           "four distinct corners shared by owner and neighbour (resp. on the boundary); no face is exported twice; with control points on the integer lattice the vertex order gives normal "
+           "+e_d for internal and upper-boundary faces and -e_d at the lower boundary (owner to neighbour / outward). Tied by L1 (faces() and cell numbers of single and offset patches). "
+           "Interfaces between patches (neighbour cell numbers through the orientation) remain L2.",
+    'C19': " ADDED: Model/Spl.v (SPL reader incl. the component-major, first-index-fastest coefficient layout; an independent writer) with the round-trip theorem decode(encode o) = o for every "
+           "non-rational non-periodic object of any pardim, the index bijection, soundness, truncated files rejected; Model/Stl.v (choice of evaluation parameters, padding to 3 components, "
+           "quads, split into two triangles, binary counter, whole write_surface path through obj_eval) with theorems: facet count = 2(nu-1)(nv-1) = declared count, every vertex is an evaluated "
+           "grid point (zero-padded for planar surfaces) and every grid point occurs, the two triangles of a quad share the diagonal with consistent winding, the parameter list is sorted, "
+           "starts/ends at the domain ends and contains every knot. Both tied by L1 (same token lines to model and SPL.read, files written by the model's writer read by the implementation; "
+           "STL facets in file order against the model tessellation).",
+}
+
 PENDING_REASON = "not claimed in this revision: model/theorems for this property are still being built (see DESIGN.md section 8 for the plan)"
 
 
@@ -264,7 +311,7 @@ def main():
                 'evidence_file': 'evidence/%s.json' % pid,
                 'replay_cmd_template': './check %s --replay {path}' % pid,
                 'engine': c['engine'],
-                'level_claimed': {'category': 'proof', 'text': c['text'], 'design_ref': c['design']},
+                'level_claimed': {'category': 'proof', 'text': c['text'] + ADDENDUM.get(pid, ''), 'design_ref': c['design']},
                 'level_note': c['note'],
                 'technique': c['technique'],
             })
